@@ -332,7 +332,8 @@ def step(role: str, s: t.Any, g: Ghost, ev: Event, kmax: int, drain: bool = True
     exc: t.Optional[BaseException] = None
     ret = None
     try:
-        ret = apply_event(role, s2, ev)
+        with K.guard(10):
+            ret = apply_event(role, s2, ev)
     except BaseException as e:  # noqa: BLE001 - the class is what is being checked
         exc = e
     out = s2.data_to_send() if drain else b""
